@@ -89,6 +89,8 @@ fn reference_format(local: i128, off: i32, digits: usize) -> String {
     s
 }
 
+const ANCHOR_DAY: i64 = 738_276; // 2022-05-02
+
 fn case_write(day: i64, nod: u64, off: i32, k: usize, acc: &mut Acc) {
     case_write_after(None, day, nod, off, k, acc)
 }
@@ -197,6 +199,16 @@ pub fn run(ctx: &Ctx) -> i32 {
         let nod = if i / 10 % 2 == 0 { 0 } else { ab::DAY_NS - 1 };
         let day = d1 + (phase + (i / 20) * step) as i64;
         case_write(day, nod, off, k, acc);
+        // purity probe: a fixed anchor value is written after every value of the sweep
+        let a_local = ins::join(ANCHOR_DAY, nod) + off as i128 * ins::NS;
+        if let Some(ax) = dt_from_off(ANCHOR_DAY, nod, off) {
+            acc.transitions += 1;
+            let got = call(|| ax.format_rfc3339(prec(k)));
+            let want = reference_format(a_local, off, PRECS[k].0);
+            if got != Out::Val(want.clone()) {
+                acc.violation("DateTime::format_rfc3339", "rendering-depends-on-the-previous-call", json!({"kind": "write", "day": ANCHOR_DAY, "nod": nod.to_string(), "off": off, "prec": k, "pred": day}), want, got.show());
+            }
+        }
         if i % 10_000_019 == 0 {
             acc.sample(json!({"op": "format_rfc3339", "day": day, "nod": nod, "off": off, "precision": PRECS[k].1}));
         }
